@@ -251,6 +251,22 @@ func callsIn(info *types.Info, n ast.Node, f func(call *ast.CallExpr, q string))
 
 // Entry points are found by role: functions of package analyzer whose result type is *AnalysisResult and
 // whose body calls the balance checker (the function returning *BalanceResult).
+// handsOnTransactions: the function calls something with a transaction (or a list of transactions) as argument.
+func handsOnTransactions(info *types.Info, decl *ast.FuncDecl) bool {
+	found := false
+	ast.Inspect(decl.Body, func(n ast.Node) bool {
+		if call, ok := n.(*ast.CallExpr); ok {
+			for _, a := range call.Args {
+				if t := info.TypeOf(a); t != nil && strings.HasSuffix(types.TypeString(t, nil), "ast.Transaction") {
+					found = true
+				}
+			}
+		}
+		return !found
+	})
+	return found
+}
+
 func ruleT3(c *Ctx) {
 	pk := c.P.ByRel["internal/analyzer"]
 	var balanceFn *types.Func
@@ -321,6 +337,16 @@ func ruleT3(c *Ctx) {
 								takesList = true
 							} else {
 								takesTx = true
+							}
+						}
+					}
+					if !takesList && !takesTx {
+						// a helper that is handed the journal and holds the loop over its transactions
+						if decl := c.P.declOf[fn]; decl != nil && decl.Body != nil && decl != cur {
+							for _, a := range call.Args {
+								if t := info.TypeOf(a); t != nil && strings.HasSuffix(types.TypeString(t, nil), "ast.Journal") && handsOnTransactions(info, decl) {
+									takesList = true
+								}
 							}
 						}
 					}
@@ -759,6 +785,9 @@ func ruleT4(c *Ctx) {
 		}
 		if !gated && (strings.HasPrefix(code, "UNDECLARED") || strings.HasPrefix(code, "UNBALANCED") || code == "MULTIPLE_INFERRED") {
 			c.finding("T4", fname, "code "+code, filterFd.Pos(), "code "+code+" written by "+prod+" is not gated by any setting")
+		} else if field, sibling := fieldOfProducer[prod]; !gated && sibling {
+			// a second code of a check whose other codes have a setting: switching the check off must silence it too
+			c.finding("T4", fname, "code "+code, filterFd.Pos(), "code "+code+" is written by "+prod+", whose other codes are gated by the setting "+field+", but the filter has no case for it: switching that check off does not silence this diagnostic")
 		}
 	}
 	// the filter is consulted for every analyzer diagnostic that is published: every protocol.Diagnostic whose
